@@ -11,6 +11,7 @@ import numpy as np
 
 from harness import bootstrap  # noqa: F401
 from harness import c02_dynmat as dmh
+from harness import c02_report as rpt
 from harness.tla_values import to_tla
 
 TOL_DM = 1e-10      # relative to max |D| of the case
@@ -148,6 +149,8 @@ def run(ctx):
     phfac = None
     worst = dict(dm=0.0, eig=0.0, freq=0.0)
     stats = dict(short_range=0, series_differ=0, comm_q=0, probe_q=0, random_q=0)
+    reports, jobs = [], []
+    rworst = dict(dm=0.0, eig=0.0, freq=0.0, vec=0.0)
     by_geom = {}
     for ev in events:
         if ev["id"] in pubs:
@@ -229,11 +232,40 @@ def run(ctx):
                                       "(eig err %.3g, freq err %.3g)" % (err, ferr),
                                       dict(entry=entry, S=S, P=P, layout=layout, store=store, q=q.tolist(), real=fr, expected=f))
                     ctx.count((gi, layout, store, "freq", kind))
+        # every combination of the other outputs of run_qpoints, on this build now and on the other
+        # build in a worker (spec/DynMatReport.tla judges the logged runs)
+        layouts = sorted(lay)
+        r_layout = layouts[(gi // 2) % len(layouts)]
+        r_store = "dense" if (gi + ctx.seed) % 2 else "sparse"
+        ph = sessions.get((gi, r_store))
+        if ph is not None:
+            pub = lay[r_layout]
+            full, compact = pub.fc_arrays(rng)
+            fc = full if r_layout == "full" else compact
+            pick = sorted(set([0, min(1, len(comm) - 1), len(comm), len(comm) + 4, len(comm) + 7, len(qarr) - 1]))
+            rq = [qarr[i] for i in pick]
+            rexp = [pub.evaluate("herm", q) for q in rq]
+            rscale = max(np.abs(m).max() for m in rexp)
+            where = dict(entry=entry, S=S, P=P, layout=r_layout, store=r_store, q=[q.tolist() for q in rq])
+            try:
+                ph.force_constants = fc
+                runs, w, bad = rpt.sweep(ph, rq, rexp, rscale, float(ph.unit_conversion_factor))
+                reports.append(dict(id=len(reports), build=dmh.bootstrap.VARIANT, runs=runs, _where=where, _bad=bad))
+                for k in w:
+                    rworst[k] = max(rworst[k], w[k])
+                ctx.count((gi, r_layout, r_store, dmh.bootstrap.VARIANT, "options-sweep"), n=8)
+            except Exception as e:
+                ctx.violation("report:raises", "run_qpoints option sweep raised %r" % (e,), where)
+            uc = pub.orc.unitcell()
+            jobs.append(dict(id=len(jobs), symbols=list(uc.symbols), scaled_positions=np.array(uc.scaled_positions),
+                             cell=np.array(uc.cell), masses=list(uc.masses), S=S, P=dmh.pmat(P), dense=(r_store == "dense"),
+                             fc=fc, qs=np.array(rq), exp=rexp, scale=rscale, _where=where))
         if gi < 3:
             ctx.sample(dict(entry=entry, S=S, P=P, supercell_atoms=anyp.ns, primitive_atoms=anyp.np,
                             shortRange=anyp.shortRange, formal_series_equal=seq, lcm_multiplicity=anyp.lcm,
                             commensurate_q=len(anyp.out["commM"]), q_example=qarr[len(comm)].tolist()))
     ctx.traces += len(by_geom) * 4
+    judge_reports(ctx, reports, jobs, rworst)
     stats["chiral_cases_nonsymmetric_blocks"] = sum(1 for e in events if e["fck"]["kind"] == "chiral")
     stats["negative_eigenvalue_cases"] = sum(1 for e in events if e["scale"]["s"] < 0) // 2
     ctx.extra["replay"] = stats
@@ -247,3 +279,83 @@ def run(ctx):
         raise dmh.tlcmod.MachineryError("vacuity: no imaginary (negative) frequency was exercised")
     if stats["short_range"] == 0 or stats["series_differ"] == 0:
         raise dmh.tlcmod.MachineryError("vacuity: need both short-range cases and cases whose series differ: %s" % stats)
+
+
+REPORT_INVS = ["ImplAllCombinationsLogged", "ImplReportedDIsTheSeries", "ImplReportedDIndependentOfOptions",
+               "ImplNoDWhenNotRequested", "ImplFrequenciesAreTheSeries", "ImplFrequenciesIndependentOfOptions",
+               "ImplEigenvectorsDiagonaliseReportedD", "ImplGroupVelocities", "ConformsReport"]
+
+
+def judge_reports(ctx, reports, jobs, rworst):
+    """second build in a worker process, then TLC on spec/DynMatReport.tla over all logged sessions."""
+    import os
+    import pickle
+    import subprocess
+    import sys
+    import tempfile
+
+    other = "serial" if dmh.bootstrap.VARIANT != "serial" else "omp"
+    if jobs:
+        tmp = tempfile.mkdtemp(prefix="c02_report_", dir=os.path.join(dmh.tlcmod.VERIF, ".run"))
+        try:
+            jp, op = os.path.join(tmp, "jobs.pkl"), os.path.join(tmp, "out.pkl")
+            with open(jp, "wb") as f:
+                pickle.dump([{k: v for k, v in j.items() if not k.startswith("_")} for j in jobs], f)
+            env = dict(os.environ, VERIF_EXT_VARIANT=other)
+            p = subprocess.run([sys.executable, "-m", "harness.c02_report", jp, op], cwd=dmh.tlcmod.VERIF, env=env,
+                               stdout=subprocess.PIPE, stderr=subprocess.STDOUT, timeout=1500)
+            if p.returncode != 0 or not os.path.exists(op):
+                raise dmh.tlcmod.MachineryError("worker for the %s build failed:\n%s" % (other, p.stdout.decode()[-2000:]))
+            with open(op, "rb") as f:
+                res = pickle.load(f)
+        finally:
+            import shutil
+            shutil.rmtree(tmp, ignore_errors=True)
+        if res["build"] != other:
+            raise dmh.tlcmod.MachineryError("worker ran on build %r, expected %r" % (res["build"], other))
+        for r in res["results"]:
+            where = jobs[r["id"]]["_where"]
+            if r["error"]:
+                ctx.violation("report:raises", "session / option sweep raised %s on the %s build" % (r["error"], other), where)
+                continue
+            reports.append(dict(id=len(reports), build=other, runs=r["runs"], _where=where, _bad=r["bad"]))
+            for k in r["worst"]:
+                rworst[k] = max(rworst[k], r["worst"][k])
+            ctx.count((r["id"], other, "options-sweep"), n=8)
+    if not reports:
+        return
+    ctx.traces += len(reports)
+    recs = ["[id |-> %d, build |-> %s, runs |-> {%s}]" % (r["id"], to_tla(r["build"]), ", ".join(to_tla(u) for u in r["runs"]))
+            for r in reports]
+    mc = "---- MODULE MC_DynMatReport ----\nEXTENDS DynMatReport\nMCReports == {%s}\n====\n" % ",\n".join(recs)
+    cfg = "SPECIFICATION Spec\nCONSTANTS\n Reports <- MCReports\nCHECK_DEADLOCK FALSE\n" + \
+          "".join("INVARIANT %s\n" % i for i in REPORT_INVS)
+    res = ctx.tlc("MC_DynMatReport", cfg_text=cfg, extra_files={"MC_DynMatReport.tla": mc}, requirement=False,
+                  extra_args=("-continue",), workers=2)
+    byid = {r["id"]: r for r in reports}
+    for name, tr in res.violations:
+        rid = tr[-1][1].get("r", {}).get("id") if tr else None
+        cur = tr[-1][1].get("cur") if tr else None
+        # every session that shows the same failure, with the concrete returned values
+        allbad = [dict(r["_where"], build=r["build"], first_bad_run=r["_bad"]) for r in reports if r["_bad"] is not None]
+        w = byid.get(rid, {})
+        if not w and allbad:   # violated in the initial state: TLC prints no session; name the first failing one
+            w = next(r for r in reports if r["_bad"] is not None)
+            cur = {k: v for k, v in w["_bad"].items() if k not in ("returned_D", "error")}
+        ctx.violation("report:" + name,
+                      "run_qpoints output is not a function of (fc, masses, q) only: %s fails (TLC) on the %s build, request %s"
+                      % (name, w.get("build"), {k: cur.get(k) for k in ("ev", "gv", "dm")} if isinstance(cur, dict) else None),
+                      dict(invariant=name, session=w.get("_where"), build=w.get("build"), logged_run=cur,
+                           failing_sessions=allbad[:6]))
+    if res.violated and not res.violations:
+        raise dmh.tlcmod.MachineryError("DynMatReport: %s" % res.violated)
+    builds = sorted(set(r["build"] for r in reports))
+    ctx.extra["options_sweep"] = dict(sessions=len(reports), builds=builds, runs=8 * len(reports),
+                                      combinations="with_eigenvectors x with_group_velocities x with_dynamical_matrices",
+                                      observed_max_error=rworst,
+                                      tolerances=dict(dm=rpt.TOL_DM, eig=rpt.TOL_EIG, freq=rpt.TOL_FREQ, vec=rpt.TOL_VEC))
+    if not ctx.violations:
+        if len(builds) < 2:
+            raise dmh.tlcmod.MachineryError("options sweep ran on one build only: %s" % builds)
+        if max(rworst["dm"], rworst["eig"]) > 1e-3 * rpt.TOL_DM or rworst["vec"] > 1e-3 * rpt.TOL_VEC:
+            raise dmh.tlcmod.MachineryError("margin: options sweep error %s within 1e3 of tolerance" % rworst)
